@@ -737,3 +737,18 @@ def run(index, rep, tier):
                     rep.check(not bad, "R09.22", fi.qualname, "`%s` written raw into the attribute `%s`" % (norm(bad[0]) if bad else "", tmpl[max(0, m_.start() - 12):m_.start()].split()[-1] if bad else ""), fn_where(fi, b), "%s: attribute placeholders filled with identifiers or escaped values" % fi.name,
                               "%s fills the attribute `%s%s` from `%s` without escaping: a value that contains `<`, `&` or a double quote (a state symbol of a standard alphabet, say) makes the NeXML document ill-formed - the reader fails with an XML ParseError and the matrix does not come back" % (fi.qualname, tmpl[max(0, m_.start() - 12):m_.start()].split()[-1] if bad else "", "%s", norm(bad[0]) if bad else ""))
         rep.floor("R09.22", "quoted attribute placeholders in the NeXML writer", 10, n22)
+
+    # ---- R09.24 generated ids are keyed by the object, which keeps it alive
+    with rep.section("R09.24"):
+        rep.rule("R09.24", "generated identifiers are keyed by the object they were generated for: the id tables of the NeXML writer (`_object_xml_id`, `_*_id_map`) are subscripted with the object itself - a table keyed by `id(obj)` does not keep the object alive, and the writer asks for ids of throw-away objects (one per column without a character type) whose addresses are reused at once, so every such column would receive the same `<char>` id and every row would collapse into one cell")
+        n24 = 0
+        for fi in index.functions_in_module(DIO + "nexmlwriter"):
+            ids = {norm(st.targets[0]) for st in walk_no_nested(fi.node) if isinstance(st, ast.Assign) and len(st.targets) == 1 and isinstance(st.value, ast.Call) and call_name(st.value) == "id" and isinstance(st.value.func, ast.Name)}
+            for x in ast.walk(fi.node):
+                if isinstance(x, ast.Subscript) and isinstance(x.value, ast.Attribute) and (x.value.attr == "_object_xml_id" or x.value.attr.endswith("_id_map")):
+                    n24 += 1
+                    k = x.slice
+                    by_id = any(isinstance(c, ast.Call) and isinstance(c.func, ast.Name) and c.func.id == "id" for c in ast.walk(k)) or norm(k) in ids
+                    rep.check(not by_id, "R09.24", fi.qualname, "`%s` keyed by id()" % norm(x.value), fn_where(fi, x), "%s: %s keyed by the object" % (fi.name, norm(x.value)),
+                              "%s keys `%s` by `%s`, an id(): the table then holds no reference to the object, and the writer requests ids for temporary objects (one fresh object() per column that has no character type) - CPython hands the freed address to the next one, so all those columns get ONE id and a matrix built from a dictionary, NEXUS, FASTA or PHYLIP comes back from NeXML with a single state per row" % (fi.qualname, norm(x.value), norm(k)))
+        rep.floor("R09.24", "subscripts of the NeXML writer's id tables", 8, n24)
